@@ -23,10 +23,11 @@ type Spec struct {
 	Graph string `json:"graph"`
 	Kinds []Kind `json:"kinds"`
 	V2    bool   `json:"v2"`
-	// TwoCommit is a KRemote node served at two commits (different create times), pinned at the
-	// old one by one local module's buf.lock and at the new one by the others (v1 only); -1 = none.
+	// TwoCommit is a KRemote node served at two commits (different create times), pinned at one of them
+	// by the first local module whose buf.lock pins it and at the other one by the other pinning modules
+	// (v1 only, needs two pinning modules); -1 = none.
 	TwoCommit int `json:"two_commit"`
-	// TCOrder 0: the first local module pins the old commit; 1: the first local module pins the new one.
+	// TCOrder 0: the first pinning module pins the old commit; 1: the first pinning module pins the new one.
 	TCOrder int `json:"tc_order"`
 	// DupFrom/DupInto: module DupInto additionally contains a copy of p<DupFrom>/a.proto; -1 = none.
 	DupFrom int `json:"dup_from"`
@@ -113,6 +114,38 @@ func (s Spec) remotes() []int { // nodes with a commit in the provider
 	return l
 }
 
+// pins are the registry commits the buf.lock of local module l pins: as `buf dep update` would write it,
+// every provider-served module (kind remote or both) that l reaches, l itself excluded.
+func (s Spec) pins(l int) []int {
+	var out []int
+	r := s.G.reach(l)
+	for _, i := range s.remotes() {
+		if i != l && r[i] {
+			out = append(out, i)
+		}
+	}
+	return out
+}
+
+// pinners are the local modules whose buf.lock pins node i.
+func (s Spec) pinners(i int) []int {
+	var out []int
+	for _, l := range s.locals() {
+		for _, p := range s.pins(l) {
+			if p == i {
+				out = append(out, l)
+			}
+		}
+	}
+	return out
+}
+
+// present reports whether node i is part of the workspace at all: local modules always, a
+// provider-only module when some buf.lock pins it.
+func (s Spec) present(i int) bool {
+	return s.Kinds[i].local() || len(s.pinners(i)) > 0
+}
+
 // valid reports whether the spec can exist: at least one local module; a provider-only module
 // imports only modules the provider has (the registry holds self-contained, acyclic commits).
 func (s Spec) valid() (bool, string) {
@@ -128,6 +161,12 @@ func (s Spec) valid() (bool, string) {
 				return false, "remote-imports-local-only"
 			}
 		}
+	}
+	if s.TwoCommit >= 0 && (s.Kinds[s.TwoCommit] != KRemote || s.V2 || len(s.pinners(s.TwoCommit)) < 2) {
+		return false, "two-commits-need-two-v1-locks"
+	}
+	if s.DupInto >= 0 && !s.present(s.DupInto) {
+		return false, "duplicate-holder-not-in-workspace"
 	}
 	// provider graph: KRemote nodes with their edges, KBoth commits are sinks; must be acyclic.
 	sub := Graph{N: s.G.N, Adj: make([][]bool, s.G.N)}
@@ -237,12 +276,9 @@ func build(ctx context.Context, s Spec) (*Built, error) {
 		}
 		return k, nil
 	}
-	lockText := func(version bufconfig.FileVersion, dt bufmodule.DigestType, exclude int, pinOld bool) (string, error) {
+	lockText := func(version bufconfig.FileVersion, dt bufmodule.DigestType, nodes []int, pinOld bool) (string, error) {
 		var keys []bufmodule.ModuleKey
-		for _, i := range s.remotes() {
-			if i == exclude {
-				continue
-			}
+		for _, i := range nodes {
 			omni := mainOmni
 			if pinOld && i == s.TwoCommit {
 				omni = oldOmni
@@ -266,13 +302,10 @@ func build(ctx context.Context, s Spec) (*Built, error) {
 		}
 		return buf.String(), nil
 	}
-	depsYAML := func(indent string, exclude int) string {
+	depsYAML := func(indent string, nodes []int) string {
 		var b strings.Builder
 		first := true
-		for _, i := range s.remotes() {
-			if i == exclude {
-				continue
-			}
+		for _, i := range nodes {
 			if first {
 				b.WriteString(indent + "deps:\n")
 				first = false
@@ -325,9 +358,16 @@ func build(ctx context.Context, s Spec) (*Built, error) {
 				fmt.Fprintf(&y, "    name: %s\n", modName(i))
 			}
 		}
+		// the one buf.lock of a v2 workspace pins what any of its modules reaches
+		var union []int
+		for _, i := range s.remotes() {
+			if len(s.pinners(i)) > 0 {
+				union = append(union, i)
+			}
+		}
 		// a v2 buf.yaml does not list workspace modules as deps
 		first := true
-		for _, i := range s.remotes() {
+		for _, i := range union {
 			if s.Kinds[i] == KBoth {
 				continue
 			}
@@ -338,7 +378,7 @@ func build(ctx context.Context, s Spec) (*Built, error) {
 			fmt.Fprintf(&y, "  - %s\n", modName(i))
 		}
 		files["buf.yaml"] = y.String()
-		lt, err := lockText(bufconfig.FileVersionV2, bufmodule.DigestTypeB5, -1, false)
+		lt, err := lockText(bufconfig.FileVersionV2, bufmodule.DigestTypeB5, union, false)
 		if err != nil {
 			return nil, fmt.Errorf("v2 lock: %w", err)
 		}
@@ -352,7 +392,7 @@ func build(ctx context.Context, s Spec) (*Built, error) {
 			fmt.Fprintf(&w, "  - %s\n", modDir(i))
 		}
 		files["buf.work.yaml"] = w.String()
-		for li, i := range locals {
+		for _, i := range locals {
 			var y strings.Builder
 			if s.Layout == "roots" {
 				y.WriteString("version: v1beta1\n")
@@ -365,13 +405,14 @@ func build(ctx context.Context, s Spec) (*Built, error) {
 			if s.Layout == "roots" {
 				y.WriteString("build:\n  roots:\n    - ra\n    - rb\n")
 			}
-			y.WriteString(depsYAML("", i))
+			y.WriteString(depsYAML("", s.pins(i)))
 			files[modDir(i)+"/buf.yaml"] = y.String()
 			pinOld := false
 			if s.TwoCommit >= 0 {
-				pinOld = (li == 0) == (s.TCOrder == 0)
+				// the first module that pins the two-commit node pins the old (TCOrder 0) or the new (1) commit, the others the other one
+				pinOld = (i == s.pinners(s.TwoCommit)[0]) == (s.TCOrder == 0)
 			}
-			lt, err := lockText(bufconfig.FileVersionV1, bufmodule.DigestTypeB4, i, pinOld)
+			lt, err := lockText(bufconfig.FileVersionV1, bufmodule.DigestTypeB4, s.pins(i), pinOld)
 			if err != nil {
 				return nil, fmt.Errorf("v1 lock: %w", err)
 			}
